@@ -181,7 +181,16 @@ func kinds(thorough bool) []kind {
 	bs := &Shape{Kind: Struct, Fields: []Field{{Name: "V", S: &Shape{Kind: Bytes, Min: 0, Max: 65535}}}}
 	ks = append(ks, kind{s: &Shape{Kind: Vec, Elem: bs, Min: 0, Max: 1<<24 - 1},
 		vals: []val{{v: list(), valid: true}, {v: list(list(pat(300)), list(pat(20))), valid: true},
-			{v: list(list(pat(3)), list(pat(2)), list(pat(1)), list([]byte{})), valid: true}}})
+			{v: list(list(pat(3)), list(pat(2)), list(pat(1)), list([]byte{})), valid: true},
+			// elements that make the output cross 1 KiB and every doubling up to 128 KiB while the
+			// vector is still open (encoders that back-patch a length prefix into a growing buffer)
+			{v: list(list(pat(500)), list(pat(500)), list(pat(500))), valid: true, big: true},
+			{v: list(list(pat(40)), list(pat(700)), list(pat(700)), list(pat(2100)), list(pat(4200)), list(pat(8400)), list(pat(17000)), list(pat(34000)), list(pat(65535))), valid: true, big: true}}})
+	// vector of structs holding a vector of structs: two open length prefixes while the output grows
+	bss := &Shape{Kind: Struct, Fields: []Field{{Name: "W", S: &Shape{Kind: Vec, Elem: bs, Min: 0, Max: 1<<24 - 1}}}}
+	ks = append(ks, kind{s: &Shape{Kind: Vec, Elem: bss, Min: 0, Max: 1<<24 - 1},
+		vals: []val{{v: list(), valid: true}, {v: list(list(list(list(pat(2)), list(pat(1)))), list(list())), valid: true},
+			{v: list(list(list(list(pat(300)), list(pat(300)))), list(list(list(pat(300)), list(pat(300)), list(pat(1200)), list(pat(2500))))), valid: true, big: true}}})
 	ns := &Shape{Kind: Struct, Fields: []Field{{Name: "A", S: u16}, {Name: "B", S: &Shape{Kind: Bytes, Min: 0, Max: 255}}}}
 	ks = append(ks, kind{s: ns, core: true, vals: []val{{v: list(uint64(0x0102), []byte{}), valid: true}, {v: list(uint64(0xffff), pat(5)), valid: true}, {v: list(uint64(1), pat(256))}}})
 	ns2 := &Shape{Kind: Struct, Fields: []Field{{Name: "A", S: u24}}}
